@@ -40,6 +40,7 @@ MIXES = {
     "C07": ["recycle", "mixed", "values"],
     "C08": ["values", "recycle"],
     "C09": ["move", "tops"],
+    "C10": ["recycle", "tops", "move"],
     "C11": ["recycle", "mixed"],
     "C12": ["fail", "recycle", "tops"],
     "C13": ["values", "mixed"],
@@ -68,8 +69,8 @@ def deep_specs(tier):
 
 def boundary_specs(tier):
     if tier == "quick":
-        return [{"mix": "boundary", "seed": SEED * 100 + k, "events": 0} for k in range(3)]
-    return ([{"mix": "boundary", "seed": SEED * 100 + k, "events": 0} for k in range(6)]
+        return [{"mix": "boundary", "seed": SEED * 100 + k, "events": 0} for k in range(4)]
+    return ([{"mix": "boundary", "seed": SEED * 100 + k, "events": 0} for k in range(8)]
             + [{"mix": "boundary-real", "seed": SEED * 100 + k, "events": 0} for k in range(3)])
 
 
@@ -81,7 +82,8 @@ def check_property(prop, tier):
         "node arguments are the newest id of a slot; stale ids of recycled slots, ids of other arenas and detach/remove of removed ids are outside 'valid calls' and never generated",
     ]
     # histories breadth-first up to 4/5 slots + every ordered forest up to 7/8 nodes built by its canonical path
-    bundle_cfgs = ["Gen_s4g1", "GenShapes_k7"] if tier == "quick" else ["Gen_s4g2", "Gen_s5g0", "GenShapes_k8"]
+    # + on every forest up to 6/7 nodes: remove / remove_subtree of every node followed by recycling of all freed slots
+    bundle_cfgs = ["Gen_s4g1", "GenShapes_k7", "GenRecycled_k6"] if tier == "quick" else ["Gen_s4g2", "Gen_s5g0", "GenShapes_k8", "GenRecycled_k7"]
 
     if prop in OUT_PROPS or prop in ("C16",):
         for m in (MC_QUICK if tier == "quick" else MC_THOROUGH):
@@ -90,11 +92,19 @@ def check_property(prop, tier):
         name = m if tier == "quick" or not os.path.exists(os.path.join(SPEC, MECH_THOROUGH.get(m, m) + ".cfg")) else MECH_THOROUGH.get(m, m)
         add_mc(v, run_mc(name), MECH_WHAT[m])
 
+    if prop == "C06":
+        try:
+            a = run_apalache_stamp()
+            v.cov["parts"].append({"part": "apalache:StampInd", "what": "EXTRA, no verdict depends on it: Apalache discharges IndInv (base + inductive step) and freshness of every issued stamp for 3 slots and ARBITRARY MAXSTAMP >= 1",
+                                   "obligations": a["obligations"], "all_discharged": a["ok"], "from_cache": a["cached"], "wall_s": a.get("wall_s")})
+        except Exception as e:  # noqa
+            v.cov["parts"].append({"part": "apalache:StampInd", "what": "extra; not run", "error": str(e)[:300]})
+
     if prop in OUT_PROPS:
         for cfg in bundle_cfgs:
             path, meta = ensure_bundles(cfg)
             for profile in ("debug", "release"):
-                if cfg.startswith("GenShapes") and profile == "release" and prop not in ("C01", "C03", "C04", "C05", "C12"):
+                if cfg.startswith(("GenShapes", "GenRecycled")) and profile == "release" and prop not in ("C01", "C03", "C04", "C05", "C12"):
                     continue
                 b = build_harness(profile)
                 flags = ["--no-lookups"]
@@ -135,6 +145,9 @@ def check_property(prop, tier):
                 sh(["bash", "-c", "pigz -dc %s > %s.plain" % (det, det)])
             r = run_replay(b, path, flags, "%s-%s" % (prop, cfg))
             add_replay(v, r, meta, "every observer from every live node of every reachable model state", [prop])
+            if prop == "C10" and cfg.startswith(("GenShapes", "GenRecycled")):
+                r = run_replay(b, path, ["--no-observers", "--no-lookups", "--post-pulls", "--detable", det + ".plain"], "C10-post-%s" % cfg)
+                add_replay(v, r, meta, "double-ended consumption of every live node's iterators in the state AFTER every successful call on every shape", ["C10"])
 
     if prop == "C16":
         for cfg in bundle_cfgs:
@@ -154,10 +167,14 @@ def check_property(prop, tier):
     if prop in MIXES:
         b = build_harness("release" if prop in ("C05",) and SEED % 2 == 0 else "debug")
         specs = trace_specs(prop, tier)
-        if prop in ("C06", "C07", "C11", "C16", "C13", "C04", "C05", "C08"):
+        if prop in ("C06", "C07", "C11", "C16", "C13", "C04", "C05", "C08", "C12"):
             specs += boundary_specs(tier)
         if prop in ("C02", "C05", "C09", "C01"):
             specs += deep_specs(tier)
+        if prop == "C08":
+            # payload objects with identity and destructor: the events carry the slots whose destructor ran
+            for sp in specs:
+                sp["extra"] = sp.get("extra", []) + ["--tracked-payload"]
         r = run_traces(b, specs, prop)
         if prop in ("C06", "C07"):
             # the end of the generation counter again without debug assertions (a debug_assert can hide a reissue behind a panic)
@@ -429,6 +446,7 @@ def setup():
     ensure_bundles("DETable")
     ensure_bundles("Gen_s4g1")
     ensure_bundles("GenShapes_k7")
+    ensure_bundles("GenRecycled_k6")
     for m in MC_QUICK:
         run_mc(m)
     print("setup ok")
